@@ -130,6 +130,14 @@ func vfC20Peer(e *vfEnv, r *vfResult, idx int) { //nolint:cyclop
 		m := p.build(s.A, vfReqOpts{Role: "controlling", Tie: p.tie, UseCand: true, Nomination: &val})
 		d := p.send(p.sockFor(pk.sock), pk.dst, m.Raw)
 		issued = append(issued, nom{v, pk, d.ID})
+		// the controlling side's initial nomination is a plain USE-CANDIDATE; copies of it (retransmissions, delayed
+		// datagrams) may arrive at any time, also after valued nominations: they must not undo those
+		if rng.IntN(3) == 0 {
+			ppk := pairs[rng.IntN(len(pairs))]
+			pm := p.build(s.A, vfReqOpts{Role: "controlling", Tie: p.tie, UseCand: true})
+			p.send(p.sockFor(ppk.sock), ppk.dst, pm.Raw)
+			r.count("c20_plain_use_candidate_interleaved", 1)
+		}
 	}
 	s.desc["nominations"] = fmt.Sprint(issued)
 	// deliver everything in random order (with duplicates), answering / withholding as decided; track the reference
@@ -166,7 +174,7 @@ func vfC20Peer(e *vfEnv, r *vfResult, idx int) { //nolint:cyclop
 		}
 		if after.Selected != before.Selected {
 			r.count("c20_selection_changes", 1)
-			if after.Selected != accPair {
+			if accMax >= 0 && after.Selected != accPair { // (before any valued nomination the plain rules of C03 apply)
 				s.viol("C20", "switched-to-non-latest-nomination", fmt.Sprintf("selection moved %q -> %q, but the highest accepted nomination value so far (%d) was carried by %s", before.Selected, after.Selected, accMax, accPair), nil)
 			}
 		}
@@ -386,6 +394,100 @@ func vfC20Agents(e *vfEnv, r *vfResult, idx int) { //nolint:cyclop
 	}
 }
 
+// vfC20Auto: automatic renomination.  The controlling agent has the feature switched on and decides by itself, during
+// its check rounds, when to renominate (round-trip times decide, so the decisions differ from run to run); the oracle
+// does not care which pair it prefers: once the exchange has quiesced both agents must sit on the mirror image of the
+// pair that carried the highest nomination value that reached the controlled agent, and on the controlled side the
+// accepted value must be the running maximum at every step.
+func vfC20Auto(e *vfEnv, r *vfResult, idx int) { //nolint:cyclop
+	s := newVfSession(e, r, idx, "c20auto")
+	defer s.closeAll()
+	rng := s.rng
+	t := vfGenTopo(s)
+	t.Unreach = nil
+	if len(t.AIPs)*len(t.BIPs) < 2 {
+		t.AIPs = append(t.AIPs, "10.0.9.1")
+		t.SignalA["10.0.9.1"] = "host"
+	}
+	s.desc["topology"] = t
+	if err := s.setupPair(t, vfSideCfg{MaxBinding: 1000, Renomination: true, AutoRenom: true, TieBreaker: 41}, vfSideCfg{MaxBinding: 1000, Renomination: true, TieBreaker: 42}, true, false); err != nil {
+		r.inconclusive(1)
+
+		return
+	}
+	pending, _ := s.signalList(t)
+	budget := map[*vfSide]int{s.A: 60, s.B: 60}
+	lastNom := int64(-1)
+	check := func() {
+		sb := s.B.snapshot()
+		if sb.Err != nil {
+			return
+		}
+		if sb.LastNom < lastNom {
+			s.viol("C20", "accepted-value-decreased", fmt.Sprintf("the controlled agent's highest accepted nomination value went from %d to %d", lastNom, sb.LastNom), nil)
+		}
+		lastNom = sb.LastNom
+	}
+	for k := 0; k < 6 && s.broken == ""; k++ {
+		// reordering, duplication and arbitrary delay, but no loss: a renomination is sent once and is not retransmitted
+		// (as in the API part, where the harness re-issues a lost one), so a lost request or response is not recoverable
+		s.chaos(20+rng.IntN(60), budget, &pending, false)
+		check()
+	}
+	s.fairSuffix(&pending, 10, nil)
+	check()
+	r.eval(1)
+	if s.broken != "" {
+		r.inconclusive(1)
+
+		return
+	}
+	if time.Since(s.start) > 3*time.Second {
+		r.outOfScope(1)
+
+		return
+	}
+	maxDelivered := uint32(0)
+	var maxPair string
+	nVals := map[uint32]bool{}
+	var nomLog []string
+	for _, dl := range s.sw.deliveredCopy() {
+		d := dl.Dgram
+		if dl.To == "B" && d.Stun != nil && d.Stun.Class == "request" && d.Stun.UseCand && d.Stun.AuthBy == "B.g0" {
+			v := "plain"
+			if d.Stun.Nomination != nil {
+				v = fmt.Sprint(*d.Stun.Nomination)
+			}
+			nomLog = append(nomLog, fmt.Sprintf("step %d: #%d %s -> %s value %s", dl.Step, d.ID, d.SrcPriv, d.Dst, v))
+		}
+		if dl.To == "B" && d.Stun != nil && d.Stun.Nomination != nil && d.Stun.AuthBy == "B.g0" {
+			nVals[*d.Stun.Nomination] = true
+			if *d.Stun.Nomination > maxDelivered {
+				maxDelivered = *d.Stun.Nomination
+				maxPair = "udp/" + d.SrcPriv.String() + "|udp/" + d.Dst.String()
+			}
+		}
+	}
+	r.distinct(fmt.Sprintf("c20auto/a=%d/b=%d/nat=%d/values=%d", len(t.AIPs), len(t.BIPs), len(t.NAT), len(nVals)))
+	if maxDelivered == 0 {
+		r.count("c20_auto_runs_without_renomination", 1)
+
+		return
+	}
+	r.count("c20_auto_renomination_values_seen", int64(len(nVals)))
+	ok, why := s.bothConnectedMirror()
+	if !ok {
+		s.viol("C20", "renomination-diverged", fmt.Sprintf("automatic renomination: after the exchange quiesced the agents are not on mirror-image pairs: %s (highest delivered value %d)", why, maxDelivered), map[string]any{"nominations_delivered_to_B": nomLog})
+
+		return
+	}
+	sa := s.A.snapshot()
+	if sa.Selected != maxPair {
+		s.viol("C20", "renomination-not-highest-value", fmt.Sprintf("automatic renomination: both agents sit on %s, but the highest nomination value that reached the controlled agent (%d) was issued on %s", sa.Selected, maxDelivered, maxPair), nil)
+	}
+	r.count("c20_auto_final_checked", 1)
+}
+
 func vfC20Errors(e *vfEnv, r *vfResult, idx int) {
 	s := newVfSession(e, r, idx, "c20errors")
 	defer s.closeAll()
@@ -447,6 +549,8 @@ func TestVerifC20(t *testing.T) {
 			switch {
 			case i%20 == 19:
 				vfC20Errors(e, r, i)
+			case i%10 == 7:
+				vfC20Auto(e, r, i)
 			case i%2 == 0:
 				vfC20Peer(e, r, i)
 			default:
